@@ -11,8 +11,9 @@ import GoldModel.Lemmas.ProgRoundTrip
   `if e … [elseif e …]* [else …] endif`, `while e … endwhile`, `loop … endloop`,
   `for i = e to|downto e [step e] … endfor`, `foreach e … endfor`, `repeat … until e`, whose bodies
   are statement LISTS of any length nested to any depth;
-* declarations — `proc Name [( [const|var|inout] p : T, … )] … endproc`,
-  `func Name [(…)] return T … endfunc`, `const c = literal`, `f : T`, `class aName [(aParent)]`;
+* declarations — `proc Name[#Event] [( [const|var|inout] p : T, … )] [modifiers] … endproc`,
+  `func Name [(…)] return T [modifiers] … endfunc` (modifiers `private`, `protected`, `final`, `override`; with
+  `forward` or `external "lib"` the method has NO body), `const c = literal`, `f : T`, `class aName [(aParent)]`;
 * programs — lists of declarations.
 
 `toks` prints to tokens (any positions, any spellings), `tree` is the intended tree — kinds, names,
@@ -128,7 +129,7 @@ private def num (v : String) (l c : Nat) : Ex := .atom (tk Kind.NumericLiteral v
 class aFoo (aBar)
 const cMax = 10
 count : Int
-proc Run(const n : Int, inout m : Int)
+proc Run(const n : Int, inout m : Int) private override
   var i : Int
   for i = 1 to n step 2
     if i < m
@@ -153,6 +154,8 @@ func Get return Int
     until v
   endfor
 endfunc
+proc Btn#Click() forward
+func Beep return Int external 'user32.Beep'
 ```
 -/
 private def sample : Prog Ex :=
@@ -160,13 +163,14 @@ private def sample : Prog Ex :=
       (some (tk Kind.OBracket "(" 0 11, tk Kind.Identifier "aBar" 0 12, tk Kind.CBracket ")" 0 16)),
     .const (tk Kind.Const "const" 1 0) (tk Kind.Identifier "cMax" 1 6) (tk Kind.Equals "=" 1 11) (tk Kind.NumericLiteral "10" 1 13),
     .field (tk Kind.Identifier "count" 2 0) (tk Kind.Colon ":" 2 6) (tk Kind.Identifier "Int" 2 8),
-    .proc (tk Kind.Proc "proc" 3 0) (tk Kind.Identifier "Run" 3 5)
+    .proc (tk Kind.Proc "proc" 3 0) (.plain (tk Kind.Identifier "Run" 3 5))
       (some (.cons (tk Kind.OBracket "(" 3 8)
         ⟨some (tk Kind.Const "const" 3 9), tk Kind.Identifier "n" 3 15, tk Kind.Colon ":" 3 17, tk Kind.Identifier "Int" 3 19⟩
         [(tk Kind.Comma "," 3 22,
           ⟨some (tk Kind.InOut "inout" 3 24), tk Kind.Identifier "m" 3 30, tk Kind.Colon ":" 3 32, tk Kind.Identifier "Int" 3 34⟩)]
         (tk Kind.CBracket ")" 3 37)))
-      [ .lvar (tk Kind.Var "var" 4 2) (tk Kind.Identifier "i" 4 6) (tk Kind.Colon ":" 4 8) (tk Kind.Identifier "Int" 4 10),
+      [.plain (tk Kind.Private "private" 3 39), .plain (tk Kind.Override "override" 3 47)]
+      (some ([ .lvar (tk Kind.Var "var" 4 2) (tk Kind.Identifier "i" 4 6) (tk Kind.Colon ":" 4 8) (tk Kind.Identifier "Int" 4 10),
         .forS (tk Kind.For "for" 5 2) (tk Kind.Identifier "i" 5 6) (tk Kind.Equals "=" 5 8) (num "1" 5 10)
           (tk Kind.To "to" 5 12) (idt "n" 5 15) (some (tk Kind.Step "step" 5 17, num "2" 5 22))
           [ .ifS (tk Kind.If "if" 6 4) (.bin (idt "i" 6 7) (tk Kind.LessThan "<" 6 9) (idt "m" 6 11))
@@ -179,16 +183,23 @@ private def sample : Prog Ex :=
                       [ .loopS (tk Kind.Loop "loop" 12 8) [ .ctl (tk Kind.Exit "exit" 13 10) ] (tk Kind.EndLoop "endloop" 14 8) ]
                       (tk Kind.EndWhile "endwhile" 15 6) ]
                   (tk Kind.EndIf "endif" 16 4))) ]
-          (tk Kind.EndFor "endfor" 17 2) ]
-      (tk Kind.EndProc "endproc" 18 0),
-    .func (tk Kind.Func "func" 19 0) (tk Kind.Identifier "Get" 19 5) none (tk Kind.Return "return" 19 9) (tk Kind.Identifier "Int" 19 16)
-      [ .ret (tk Kind.Return "return" 20 2) (.bin (idt "count" 20 9) (tk Kind.Plus "+" 20 15) (num "1" 20 17)),
+          (tk Kind.EndFor "endfor" 17 2) ],
+      tk Kind.EndProc "endproc" 18 0)),
+    .func (tk Kind.Func "func" 19 0) (.plain (tk Kind.Identifier "Get" 19 5)) none (tk Kind.Return "return" 19 9)
+      (tk Kind.Identifier "Int" 19 16) []
+      (some ([ .ret (tk Kind.Return "return" 20 2) (.bin (idt "count" 20 9) (tk Kind.Plus "+" 20 15) (num "1" 20 17)),
         .expr (num "1" 21 2),
         .foreachS (tk Kind.ForEach "foreach" 22 2) (.bin (idt "v" 22 10) (tk Kind.In "in" 22 12) (idt "l" 22 15))
           [ .repeatS (tk Kind.Repeat "repeat" 23 4) [ .ctl (tk Kind.Continue "continue" 24 6) ] (tk Kind.Until "until" 25 4)
               (idt "v" 25 10) ]
-          (tk Kind.EndFor "endfor" 26 2) ]
-      (tk Kind.EndFunc "endfunc" 27 0) ]
+          (tk Kind.EndFor "endfor" 26 2) ],
+      tk Kind.EndFunc "endfunc" 27 0)),
+    .proc (tk Kind.Proc "proc" 28 0) (.event (tk Kind.Identifier "Btn" 28 5) (tk Kind.Pound "#" 28 8) (tk Kind.Identifier "Click" 28 9))
+      (some (.empty (tk Kind.OBracket "(" 28 14) (tk Kind.CBracket ")" 28 15)))
+      [.plain (tk Kind.Forward "forward" 28 17)] none,
+    .func (tk Kind.Func "func" 29 0) (.plain (tk Kind.Identifier "Beep" 29 5)) none (tk Kind.Return "return" 29 10)
+      (tk Kind.Identifier "Int" 29 17)
+      [.ext (tk Kind.External "external" 29 21) (tk Kind.StringLiteral "user32.Beep" 29 30)] none ]
 
 /-- the sample is well formed, so the theorem applies to it … -/
 private theorem sample_wf : Prog.WF exSpec sample := (prog_wfb_iff sample).mp (by decide +kernel)
@@ -199,8 +210,8 @@ example : parseGoldNoMemo (Prog.toks exSpec sample) = (Prog.tree exSpec sample, 
 
 /-- `WF` is not trivially true: a block closed by the generic `end` would end the method's slice -/
 example : ¬ Prog.WF exSpec
-    [ .proc (tk Kind.Proc "proc" 0 0) (tk Kind.Identifier "P" 0 5) none
-        [ .loopS (tk Kind.Loop "loop" 1 0) [] (tk Kind.End "end" 2 0) ] (tk Kind.EndProc "endproc" 3 0) ] := by
+    [ .proc (tk Kind.Proc "proc" 0 0) (.plain (tk Kind.Identifier "P" 0 5)) none []
+        (some ([ .loopS (tk Kind.Loop "loop" 1 0) [] (tk Kind.End "end" 2 0) ], tk Kind.EndProc "endproc" 3 0)) ] := by
   rw [← prog_wfb_iff]; decide +kernel
 
 /-- nor is an expression statement that starts like an assignment target accepted -/
